@@ -281,12 +281,12 @@ theorem dm_roundtrip_ascii_partial (T : Tables) (syms : List SymbolInfo) (la : L
     Hypotheses: the oracle conditions of `dm_roundtrip_five_modes_partial`; `hRS`: the Reed-Solomon decoder
     model (C04) returns each reference block (data ++ ECC) unchanged — i.e. the reference ECC words are code
     words of the decoder's code (C04 proves `rs_decode_clean` for words with zero syndromes; that the
-    reference ECC of C08 has zero syndromes is the link not proved here); `hcwb`: the model's codewords are
-    bytes (they are `[]byte` in the Go code by type; not proved for the `Nat`-valued model). -/
+    reference ECC of C08 has zero syndromes is the link not proved here).  That the model's codewords are
+    bytes is proved (`encodeHL_bytes`). -/
 theorem dm_symbol_roundtrip_partial (syms : List SymbolInfo) (la : LookAhead) (msg : List Nat) (cfg : Cfg)
     (cw : List Nat) (hNoE : LaNoEdifact la)
     (hTA : LaTailAscii la msg (initCtx msg cfg).total) (hXT : LaX12Tail la msg (initCtx msg cfg).total)
-    (hb : ∀ x ∈ msg, x < 256) (h : encodeHL syms la msg cfg = .ok cw) (hcwb : ∀ x ∈ cw, x < 256)
+    (hb : ∀ x ∈ msg, x < 256) (h : encodeHL syms la msg cfg = .ok cw)
     (p : DMRef.Sym × Nat) (hp : p ∈ DMRef.table7.zipIdx) (hn : cw.length = p.1.nData)
     (hRS : ∀ b ∈ List.range p.1.blocks,
       RS.decode GF.dataMatrix256 (DMRef.blockData p.1 cw b ++ DMRef.blockEcc p.1 cw b) p.1.blkErr
@@ -299,6 +299,7 @@ theorem dm_symbol_roundtrip_partial (syms : List SymbolInfo) (la : LookAhead) (m
       (∀ nb ∈ blocks, RS.decode GF.dataMatrix256 nb.2 p.1.blkErr = .ok nb.2) ∧
       DMDec.resultBytes blocks = .ok cw ∧
       decodeText refTables cw = .ok msg := by
+  have hcwb := encodeHL_bytes syms la msg cfg cw hNoE hTA hXT hb h
   have hchain := Gzx.Properties.C08.decoder_inverts_reference_symbol p hp cw hn hcwb
   simp only at hchain
   obtain ⟨h1, h2, h3, h4⟩ := hchain
